@@ -283,6 +283,14 @@ Expand(s) ==
                         \cup { AbsP(<<Dos, Step(ax, [k |-> "pilit", target |-> Cp(t)], pr)>>) :
                                  ax \in {"child", "following", "preceding-sibling", "self"}, t \in {"p", "x"}, pr \in {<<>>, <<NumL(1)>>} }
                         \cup { AbsP(<<Dos, Step("attribute", AnyT, <<p>>)>>) : p \in CtxPreds }
+                        \* the abbreviated steps . and .. right after // (and between steps) in RELATIVE paths, at the top
+                        \* level and inside predicates: a//. is a/descendant-or-self::node()/self::node()
+                        \cup { Rel(<<Ch("a"), Dos, Self>>), Rel(<<Ch("a"), Dos, Self, Step("child", TypeT("text"), <<>>)>>),
+                               Rel(<<Ch("a"), Dos, Up>>), Rel(<<Ch("a"), Self, Ch("b")>>), Rel(<<Self, Dos, Ch("b")>>),
+                               Rel(<<Ch("a"), Ch("b"), Dos, Self>>), Fn1("count", Rel(<<Ch("a"), Dos, Self>>)),
+                               AbsP(<<Dos, Step("child", AnyT, <<Bin("=", Fn1("count", Rel(<<Self, Dos, Self>>)), NumL(2))>>)>>),
+                               AbsP(<<Dos, Step("child", AnyT, <<Rel(<<Ch("b"), Dos, Self, Step("child", TypeT("text"), <<>>)>>)>>)>>),
+                               AbsP(<<Ch("a"), Dos, Self>>), AbsP(<<Ch("a"), Dos, Self, Ch("c")>>) }
     [] s.fam = "ns" ->
          LET T == { [k |-> "name", pre |-> pr, loc |-> Cp(n)] : pr \in {<<>>, Cp("r"), Cp("p"), Cp("q")}, n \in {"b", "x", "c"} }
                   \cup { [k |-> "nsany", pre |-> pr] : pr \in {Cp("r"), Cp("p"), Cp("q")} } \cup {AnyT}
